@@ -259,6 +259,40 @@ func VerifC01PartialNext() {
 	vf.Reach("done")
 }
 
+// VerifC01AnyMethodBody: a request body is relayed whatever the method is - also on methods
+// that usually have none (GET, HEAD, OPTIONS, DELETE, TRACE) - framed by Content-Length or by
+// chunking, and the request behind it on the same connection is still served.
+func VerifC01AnyMethodBody() {
+	methods := []string{"GET", "HEAD", "OPTIONS", "DELETE", "TRACE", "PUT", "PATCH"}
+	r1 := zzreqSpec{method: methods[vf.Choice("method", len(methods))], path: "/a", hval: "h1"}
+	r1.body = vf.Bytes("req-body", 1+vf.Choice("req-body-len", 2))
+	r1.chunked = vf.Choice("req-chunked", 2) == 1
+	r2 := zzreqSpec{method: "GET", path: "/b", hval: "h2"}
+	var segs [][]byte
+	if vf.Choice("pipelined", 2) == 1 {
+		segs = [][]byte{append(r1.wire(), r2.wire()...)}
+	} else {
+		segs = [][]byte{r1.wire(), r2.wire()}
+	}
+	conn := zznewClientConn("client", true, segs...)
+	o := &zzorigin{}
+	o.answer = func(i int, req *http.Request) (*http.Response, error) {
+		return zzrawResponse(zzresSpec{status: 200, hval: "x", framing: vf.Choice("origin-framing", 2), body: []byte("ok")}.wire(), req)
+	}
+	p := NewProxy()
+	p.SetRoundTripper(o)
+	zzserveConn(p, conn)
+	vf.Assert(len(o.seen) == 2, "origin-receives-both-requests")
+	if len(o.seen) == 2 {
+		vf.Assert(o.seen[0].method == r1.method && o.seen[0].url == "http://example.com/a", "origin-sees-method-and-target")
+		vf.Assert(bytes.Equal(o.seen[0].body, r1.body), "origin-sees-identical-body-whatever-the-method")
+		vf.Assert(o.seen[1].method == "GET" && o.seen[1].url == "http://example.com/b" && len(o.seen[1].body) == 0, "following-request-intact")
+	}
+	got := zzclientView(conn.out.Bytes(), []string{r1.method, "GET"})
+	vf.Assert(len(got) == 2 && got[0].ok && got[1].ok, "client-receives-one-response-per-request")
+	vf.Reach("done")
+}
+
 type zzroundTripFunc func(*http.Request) (*http.Response, error)
 
 func (f zzroundTripFunc) RoundTrip(r *http.Request) (*http.Response, error) { return f(r) }
